@@ -24,6 +24,11 @@ struct Guard {
 }
 impl Drop for Guard {
     fn drop(&mut self) {
+        // what a callback owns may take a moment to drop (every third guard does): a router that
+        // confirms the shutdown before it has dropped its handlers is then caught by the stamps
+        if self.route % 3 == 0 {
+            std::thread::sleep(Duration::from_micros(300));
+        }
         self.log.lock().unwrap().push(Ev::Dropped { route: self.route, at: now_ns() });
     }
 }
